@@ -32,6 +32,9 @@ func init() {
 		if len(a) >= 1 && (a[0] == "world" || a[0] == "hist") {
 			c06case(c, a[0], a[1:], 6, 2)
 		}
+		if len(a) >= 1 && a[0] == "ann" {
+			c06annReplay(c, a[1:])
+		}
 	}
 }
 
@@ -377,6 +380,8 @@ func runC06(c *ctx) {
 		f := strings.Fields(l)
 		c06case(c, f[0], f[1:], 8, 4)
 	}
+	// annotation prefixes: one object declaring a key under several --annotations-prefix values (c06ann.go)
+	c06annAll(c)
 	r := gen.New(c.seed)
 	n, nh := 150, 100
 	k := 5
